@@ -144,6 +144,28 @@ def label_generator(fi: FuncInfo, atoms: Dict[str, bool]) -> Tuple[Optional[str]
     dec = cfgd(atoms)
     found: List[Tuple[str, ast.AST]] = []
 
+    def resolve(arg: ast.AST, body, loopvar, depth=0) -> ast.AST:
+        # conditional expression decided by the configuration
+        if isinstance(arg, ast.IfExp):
+            d = dec(arg.test)
+            if d is not None:
+                return resolve(arg.body if d else arg.orelse, body, loopvar, depth)
+            return arg
+        # a local defined in the same loop body
+        if isinstance(arg, ast.Name) and arg.id != loopvar and depth < 4:
+            defs = [s2.value for s2 in body if isinstance(s2, ast.Assign) and isinstance(s2.targets[0], ast.Name) and s2.targets[0].id == arg.id]
+            if len(defs) == 1:
+                return resolve(defs[0], body, loopvar, depth + 1)
+        return arg
+
+    def classify_arg(arg: ast.AST, st, loopvar):
+        if isinstance(arg, ast.Name) and arg.id == loopvar:
+            found.append(("id", st))
+        elif match(arg, f"{loopvar} ^ ({loopvar} >> 1)") is not None or match(arg, f"binary_to_gray({loopvar})") is not None:
+            found.append(("gray", st))
+        else:
+            found.append((("expr", arg, loopvar), st))
+
     def walk(body, loopvar=None):
         for st in body:
             if isinstance(st, ast.If):
@@ -154,20 +176,14 @@ def label_generator(fi: FuncInfo, atoms: Dict[str, bool]) -> Tuple[Optional[str]
                     walk(st.orelse, loopvar)
             elif isinstance(st, ast.For):
                 lv = st.target.id if isinstance(st.target, ast.Name) else None
+                # `for j, bit in enumerate(format(label, ...))`: the format call sits in the loop header
+                if loopvar:
+                    for c in ast.walk(st.iter):
+                        if isinstance(c, ast.Call) and call_name(c) == "format" and c.args:
+                            classify_arg(resolve(c.args[0], body, loopvar), st, loopvar)
                 walk(st.body, lv or loopvar)
             elif isinstance(st, ast.Assign) and isinstance(st.value, ast.Call) and call_name(st.value) == "format" and loopvar:
-                arg = st.value.args[0]
-                # resolve a local defined in the same loop body
-                if isinstance(arg, ast.Name) and arg.id != loopvar:
-                    defs = [s2.value for s2 in body if isinstance(s2, ast.Assign) and isinstance(s2.targets[0], ast.Name) and s2.targets[0].id == arg.id]
-                    if len(defs) == 1:
-                        arg = defs[0]
-                if isinstance(arg, ast.Name) and arg.id == loopvar:
-                    found.append(("id", st))
-                elif match(arg, f"{loopvar} ^ ({loopvar} >> 1)") is not None or match(arg, f"binary_to_gray({loopvar})") is not None:
-                    found.append(("gray", st))
-                else:
-                    found.append((("expr", arg, loopvar), st))
+                classify_arg(resolve(st.value.args[0], body, loopvar), st, loopvar)
 
     walk(fi.body)
     kinds = {k if isinstance(k, str) else unparse(k[1]) for k, _ in found}
